@@ -222,6 +222,21 @@ def probes():
                          [('disallowed', {'additional_flags':
                                           {'disallow_OP_EVAL': True}}),
                           ('default', {})])
+    # the instructions that evaluate a script through OP_EVAL are disallowed
+    # with it ("OP_TAPROOT ... calls OP_EVAL", "OP_MERKLEVAL ... OP_EVAL")
+    inner = O('TRUE') + O('POP0')
+    tp = isa.TRY(place(('TAPROOT',), inner) + isa.push(b'ok'),
+                 isa.push(b'err')) + out()
+    P['eval_allowed_taproot'] = (tp, [b'o'],
+                                 [('disallowed', {'additional_flags':
+                                                  {'disallow_OP_EVAL': True}}),
+                                  ('default', {})])
+    mk = isa.TRY(place(('MERKLEVAL',), inner) + isa.push(b'ok'),
+                 isa.push(b'err')) + out()
+    P['eval_allowed_merkleval'] = (mk, [b'o'],
+                                   [('disallowed', {'additional_flags':
+                                                    {'disallow_OP_EVAL': True}}),
+                                    ('default', {})])
     er = isa.push(O('RETURN')) + O('EVAL') + isa.push(b'after') + out()
     P['eval_return'] = (er, [b'o'],
                         [('eval_return', {'additional_flags':
@@ -336,7 +351,7 @@ def spec_effect(pname, label, kw):
         e['o'] = b'\xff' if 50 < thr else b'\x00'
     elif pname.startswith('loop'):
         e['o'] = b'ok' if int(pname[4:]) <= kw['callstack_limit'] else b'err'
-    elif pname == 'eval_allowed':
+    elif pname.startswith('eval_allowed'):
         e['o'] = b'err' if 'disallow_OP_EVAL' in fl else b'ok'
     elif pname == 'eval_return':
         e['o'] = None if fl.get('eval_return') else b'after'
